@@ -105,6 +105,20 @@ fn pattern(kind: usize, p: usize, rng: &mut Rng) -> (Vec<u8>, &'static str) {
             v[..n].copy_from_slice(&head[..n]);
             (v, "random bytes beginning like a compressed file")
         }
+        7 => {
+            // random bytes in which a stretch of at least 273 bytes (a third of the period) occurs twice
+            // close together: an inner repeat that is long, but far shorter than the period, and whose
+            // first copy in the previous period is still inside the window for p up to about 3000
+            let mut v = rng.bytes(p);
+            if p >= 900 {
+                let l = (p / 3).max(273);
+                let a = rng.below(16);
+                let b = a + l + rng.below(32);
+                let seg: Vec<u8> = v[a..a + l].to_vec();
+                v[b..b + l].copy_from_slice(&seg);
+            }
+            (v, "random bytes with an inner repeat of a third of the period")
+        }
         4 => ((0..p).map(|_| rng.below(2) as u8 * 0x55).collect(), "dense two-symbol random"),
         5 => ((0..p).map(|_| rng.below(4) as u8 + 0x40).collect(), "dense four-symbol random"),
         0 => (rng.bytes(p), "random bytes"),
@@ -182,8 +196,8 @@ pub fn run(cx: &mut Ctx) {
             });
         }
         // inputs longer than 64 KiB and patterns that contain runs, over many periods
-        for (p, n) in [(500usize, 70_000usize), (1000, 140_000), (3000, 70_001), (4096, 80_000), (101, 5000), (37, 40 * 37), (260, 30_000)] {
-            for kind in [0usize, 3] {
+        for (p, n) in [(500usize, 70_000usize), (1000, 140_000), (3000, 70_001), (4096, 80_000), (101, 5000), (37, 40 * 37), (260, 30_000), (2000, 100_000), (2600, 140_000), (1500, 60_000)] {
+            for kind in [0usize, 3, 7] {
                 cx.case("long_inputs_and_runs", |c| {
                     c.sit("long_inputs_and_runs");
                     let mut rng = Rng::new((p * 7 + kind) as u64);
@@ -193,6 +207,42 @@ pub fn run(cx: &mut Ctx) {
                     }
                 });
             }
+        }
+    }
+    if !miri {
+        // inputs of 1 MiB and more: few symbols (every trigram occurs many times inside one period)
+        let big: &[(usize, usize, usize)] = if cx.a.quick() { &[(1000, (1 << 20) + 5, 4), (3000, (1 << 20) + 4100, 5)] } else { &[(1000, (1 << 20) + 5, 4), (3000, (1 << 20) + 4100, 5), (300, 1_300_000, 4), (4001, 2_100_000, 5), (2049, 10_000_000, 0), (2500, 16_000_000, 0)] };
+        for &(p, n, kind) in big {
+            cx.case("inputs_of_1MiB_and_more", |c| {
+                c.sit("inputs_of_1MiB_and_more");
+                let mut rng = Rng::new((p * 11 + kind) as u64);
+                let (pat, what) = pattern(kind, p, &mut rng);
+                for fmt in [Fmt::Lz10, Fmt::Lz13] {
+                    check_periodic(c, fmt, &pat, n, what);
+                }
+            });
+        }
+    }
+    if !miri {
+        // resonance: a pattern of period p = (4096 + l) / 2 holding a stretch of l >= 273 bytes twice,
+        // the second copy at the offset where the third full-length reference of the parse ends; an
+        // encoder that settles for the l-byte match there lands on the same offset again 4096 bytes
+        // later, every time - so the cost of not using the full match length adds up with n
+        for l in [274usize, 280, 300, 400] {
+            cx.case("resonant_inner_repeat", |c| {
+                c.sit("resonant_inner_repeat");
+                let p = (4096 + l) / 2;
+                let b = (2 * (4096 - p)) % p;
+                let mut rng = Rng::new(0x5E50 + l as u64);
+                let mut pat = rng.bytes(p);
+                if b >= l && b + l <= p {
+                    let seg: Vec<u8> = pat[..l].to_vec();
+                    pat[b..b + l].copy_from_slice(&seg);
+                }
+                for fmt in [Fmt::Lz10, Fmt::Lz13] {
+                    check_periodic(c, fmt, &pat, 1_000_000 + l, "random bytes with a resonant inner repeat");
+                }
+            });
         }
     }
     // effectiveness bound
@@ -210,7 +260,7 @@ pub fn run(cx: &mut Ctx) {
     };
     periods.dedup();
     for p in periods {
-        for kind in 0..7 {
+        for kind in 0..8 {
             cx.case("periodic", |c| {
                 c.sit(if p <= 40 { "periods_small" } else if p >= 4080 { "periods_window_edge" } else { "periods_middle" });
                 let mut rng = Rng::new((p * 3 + kind) as u64);
